@@ -38,6 +38,7 @@ type stressCfg struct {
 	Perturb          bool // random yields at hook points
 	Resize           bool // start with an open that updates the max size
 	HoldMax          int  // max yields a reader holds its transaction
+	COW              bool // half of the write transactions replace pages (alloc new + free old) instead of overwriting
 }
 
 type histOp struct {
@@ -189,8 +190,13 @@ func (s *stress) scan(tx *txfile.Tx, who string) (uint64, bool) {
 		s.violate("reader-mixed", "reader-mixed-root", "%s: root page is not the stamp of state %d", who, j)
 		return 0, false
 	}
+	rootID := rp.ID()
+	if v, ok := st[rootID]; !ok || v != j {
+		s.violate("reader-mixed", "reader-mixed-root", "%s: root page %d is not the root of state %d", who, rootID, j)
+		return 0, false
+	}
 	for id, ver := range st {
-		if id == s.root {
+		if id == rootID {
 			continue
 		}
 		pg, err := tx.Page(id)
@@ -335,13 +341,56 @@ func (s *stress) writer(id int, r *core.Rand, wg *sync.WaitGroup) {
 			next[pid] = j
 			return true
 		}
-		// root always carries the new seq
-		if !write(s.root) {
-			return
+		// The root always carries the new seq. In copy-on-write mode no committed
+		// page is overwritten at all (no overwrite mapping change): the root and
+		// some pages are replaced by freshly allocated pages and the old ones freed.
+		rootID := tx.Root()
+		cow := s.sc.COW && r.Chance(1, 2)
+		replace := func(old txfile.PageID) (txfile.PageID, bool) {
+			np, err := tx.Alloc()
+			if err != nil {
+				if txerr.Is(txfile.OutOfMemory, err) {
+					return 0, false
+				}
+				fail("alloc", err)
+				return 0, false
+			}
+			if err := np.SetBytes(s.expected(np.ID(), j)); err != nil {
+				fail("write-new", err)
+				return 0, false
+			}
+			op, err := tx.Page(old)
+			if err == nil {
+				err = op.Free()
+			}
+			if err != nil {
+				fail("free", err)
+				return 0, false
+			}
+			delete(next, old)
+			next[np.ID()] = j
+			return np.ID(), true
+		}
+		if cow {
+			nr, ok := replace(rootID)
+			if !ok {
+				if s.stopped() {
+					return
+				}
+				cow = false
+			} else {
+				tx.SetRoot(nr)
+				rootID = nr
+			}
+		}
+		if !cow {
+			if !write(rootID) {
+				return
+			}
 		}
 		var ids []txfile.PageID
 		for k := range cur {
-			if k != s.root {
+			if k != rootID && hasKey(next, k) {
 				ids = append(ids, k)
 			}
 		}
@@ -349,7 +398,20 @@ func (s *stress) writer(id int, r *core.Rand, wg *sync.WaitGroup) {
 		nOps := 1 + r.Intn(8)
 		flushed := false
 		for o := 0; o < nOps; o++ {
-			switch r.Pick([]int{50, 15, 12, 6, 5, 4}) {
+			pick := r.Pick([]int{50, 15, 12, 6, 5, 4})
+			if cow && (pick == 0 || pick == 4) {
+				// replace a page instead of overwriting it
+				if len(ids) > 0 {
+					pid := ids[r.Intn(len(ids))]
+					if v, ok := next[pid]; ok && v != j {
+						if _, ok := replace(pid); !ok && s.stopped() {
+							return
+						}
+					}
+				}
+				continue
+			}
+			switch pick {
 			case 0: // overwrite
 				if len(ids) > 0 {
 					pid := ids[r.Intn(len(ids))]
@@ -827,7 +889,7 @@ func init() {
 			return 2 * time.Minute
 		},
 		Run: func(c *core.Case) *core.Result {
-			sc := stressCfg{Readers: 1 + c.R.Intn(4), Writers: 1, TxPerWriter: 20 + c.R.Intn(25), Perturb: true, HoldMax: []int{0, 5, 50, 400}[c.R.Intn(4)], Faults: c.R.Chance(1, 3)}
+			sc := stressCfg{COW: c.R.Chance(1, 2), Readers: 1 + c.R.Intn(4), Writers: 1, TxPerWriter: 20 + c.R.Intn(25), Perturb: true, HoldMax: []int{0, 5, 50, 400}[c.R.Intn(4)], Faults: c.R.Chance(1, 3)}
 			return runStress(c, "C02", sc)
 		},
 		Finalize: func(a *core.Aggregate) error {
@@ -865,7 +927,7 @@ func init() {
 				// cooperative scheduler: enumerated schedules of small actor sets
 				return runSchedCase(c)
 			}
-			sc := stressCfg{Readers: 1 + c.R.Intn(6), Writers: 1 + c.R.Intn(3), TxPerWriter: 10 + c.R.Intn(20), Perturb: c.R.Chance(1, 2),
+			sc := stressCfg{COW: c.R.Chance(1, 3), Readers: 1 + c.R.Intn(6), Writers: 1 + c.R.Intn(3), TxPerWriter: 10 + c.R.Intn(20), Perturb: c.R.Chance(1, 2),
 				HoldMax: []int{0, 5, 50, 200}[c.R.Intn(4)], Faults: c.R.Chance(1, 3), Closer: c.R.Chance(1, 2), Resize: c.R.Chance(1, 3)}
 			return runStress(c, "C09", sc)
 		},
